@@ -9,6 +9,7 @@ import (
 	"time"
 
 	"github.com/prometheus/client_golang/prometheus"
+	"github.com/resonatehq/resonate/internal/app/subsystems/aio/store/postgres"
 	"github.com/resonatehq/resonate/internal/app/subsystems/aio/store/sqlite"
 	"github.com/resonatehq/resonate/internal/kernel/bus"
 	"github.com/resonatehq/resonate/internal/kernel/t_aio"
@@ -94,4 +95,15 @@ func (b *Backend) Exec(batch [][]*t_aio.Command) ([][]*t_aio.Result, []error) {
 		}
 	}
 	return res, errs
+}
+
+// NewPostgresBackend runs the real PostgresStore on the dialect shim.
+func NewPostgresBackend() *Backend {
+	m := metrics.New(prometheus.NewRegistry())
+	db := openShim()
+	st := postgres.VerifNew(db, m, &postgres.Config{Size: 10, BatchSize: 10, Workers: 1, TxTimeout: 10 * time.Second})
+	if err := st.VerifCreateTables(); err != nil {
+		panic(fmt.Sprintf("pgshim: schema: %v", err))
+	}
+	return &Backend{Name: "postgres(pgshim)", store: st, DB: db, path: ":memory:", stop: func() { _ = db.Close() }}
 }
